@@ -23,7 +23,7 @@ NextR ==
                                                ELSE Sale(ch, k, MinOf(Fresh), 1)
   \/ \E fs \in Lists2 : fs # funders /\ SetFunders(fs)
   \/ ~feegr /\ SetFeegranter
-  \/ \E ch \in SaleChains, k \in Contracts \cup {0} : SetSale(ch, k)
+  \/ \E cfg \in SaleCfgs : cfg # sale /\ SetSale(cfg)
   \/ \E who \in Users, amt \in Amounts \ {0} : Gift(who, amt, "keeper")
   \/ Gift(1, 1, "tx")
   \/ \E c \in Fresh, q \in 1..5 : Advance(c, q)
